@@ -398,7 +398,7 @@ def token_codec(ctx, rr):
             continue
         if true:
             import re
-            m = re.search(r"'(\d)'", true[0])
+            m = re.search(r"'(\d)'", true[0]) or re.search(r"str\((\d)\)", true[0])
             reader[int(m.group(1)) if m else true[0]] = moves[0]
         else:
             rest = moves[0]
@@ -431,8 +431,14 @@ def token_codec(ctx, rr):
     def binops(u):
         out = []
         for n in ast.walk(u.node):
-            if isinstance(n, ast.BinOp) and isinstance(n.right, ast.Constant) and isinstance(n.right.value, int):
-                out.append((type(n.op).__name__, n.right.value))
+            if isinstance(n, ast.BinOp):
+                for side in (n.right, n.left):
+                    v = side.value if isinstance(side, ast.Constant) else (CE.get(u.module, side.id) if isinstance(side, ast.Name) and side.id.isupper() else None)
+                    if isinstance(v, int) and not isinstance(v, bool) and (side is n.right or isinstance(n.op, ast.Mult)):
+                        out.append((type(n.op).__name__, v))
+                        break
+            if isinstance(n, ast.AugAssign) and isinstance(n.value, ast.Constant) and isinstance(n.value.value, int):
+                out.append((type(n.op).__name__, n.value.value))
         return out
     checks = [
         ('base4_append', [('Mult', 4)]),
@@ -892,6 +898,10 @@ def topk(ctx, rr):
             for s in f.body:
                 if isinstance(s, ast.AugAssign) and isinstance(s.target, ast.Name):
                     counted.add(s.target.id)
+    for a in P.own(u, ast.Assign):
+        if isinstance(a.targets[0], ast.Name) and isinstance(a.value, ast.Call) and isinstance(a.value.func, ast.Name) and a.value.func.id in ('sum', 'len'):
+            if any(isinstance(c, ast.Call) and any(t.cls == 'LinkStore' for t in P.targets(c)) for c in ast.walk(a.value)):
+                counted.add(a.targets[0].id)
     ok = isinstance(tup, ast.Tuple) and len(tup.elts) == 3 and isinstance(tup.elts[0], ast.Name) and tup.elts[0].id in counted
     rr.ob(ctx.where(u, push), 'heap entries are ordered by the counted indegree first: %s' % (ast.unparse(tup) if tup else None), ok=ok)
     if not ok:
@@ -922,19 +932,50 @@ def topk(ctx, rr):
     rr.ob(ctx.where(u, push), 'only pages enter the heap', ok=ok)
     if not ok:
         rr.fail(ctx.finding('R-TOPK', u, push, 'non-page nodes can enter the most-linked heap'))
-    # drain: filled from the back while popping the minimum -> non-increasing order
-    wl = [w for w in P.own(u, ast.While)]
-    ok = len(wl) == 1
-    if ok:
-        popv = [a.targets[0].id for a in wl[0].body if isinstance(a, ast.Assign) and isinstance(a.value, ast.Call) and ast.unparse(a.value.func) == 'heapq.heappop'
-                and isinstance(a.targets[0], ast.Name)]
-        ok = len(popv) == 1 and any(isinstance(s_, ast.AugAssign) and isinstance(s_.op, ast.Sub) for s_ in wl[0].body) and \
-            any(isinstance(s_, ast.Assign) and isinstance(s_.targets[0], ast.Subscript) and isinstance(s_.value, ast.Dict)
-                and {ast.unparse(k): ast.unparse(v) for k, v in zip(s_.value.keys, s_.value.values)} == {"'lru'": popv[0] + '[2]', "'indegree'": popv[0] + '[0]'}
-                for s_ in wl[0].body)
-    rr.ob(ctx.where(u, wl[0] if wl else u.node), 'the heap is drained minimum-first into the result from the back (non-increasing indegree)', ok=ok)
-    if not ok:
-        rr.fail(ctx.finding('R-TOPK', u, wl[0] if wl else u.node, 'the result is no longer filled from the back while popping the minimum'))
+    # drain: the heap is emptied minimum-first and the result filled from the back (or appended and reversed)
+    loops = [w for w in P.own(u, (ast.While, ast.For)) if any(isinstance(c, ast.Call) and ast.unparse(c.func) == 'heapq.heappop' and not
+                                                            (P.stmt_of(c) is not None and isinstance(P.parent.get(id(P.stmt_of(c))), ast.If)) for c in ast.walk(w))
+             and not any(isinstance(c, ast.Call) and ast.unparse(c.func) == 'heapq.heappush' for c in ast.walk(w))]
+    fin = [e for e in ast.walk(u.node) if isinstance(e, ast.Call) and isinstance(e.func, ast.Attribute) and e.func.attr == 'finalize']
+    verdict = None
+    if len(loops) == 1:
+        lp = loops[0]
+        pops = [a for a in lp.body if isinstance(a, ast.Assign) and isinstance(a.value, ast.Call) and ast.unparse(a.value.func) == 'heapq.heappop']
+        fills = [a for a in lp.body if isinstance(a, ast.Assign) and isinstance(a.targets[0], ast.Subscript) and isinstance(a.value, ast.Dict)]
+        apps = [c for c in ast.walk(lp) if isinstance(c, ast.Call) and isinstance(c.func, ast.Attribute) and c.func.attr in ('append', 'insert') and c.args and isinstance(c.args[-1], ast.Dict)]
+        if len(pops) == 1 and (fills or apps):
+            tgt = pops[0].targets[0]
+            if isinstance(tgt, ast.Name):
+                deg, lru_ = tgt.id + '[0]', tgt.id + '[2]'
+            elif isinstance(tgt, ast.Tuple) and len(tgt.elts) == 3:
+                deg, lru_ = ast.unparse(tgt.elts[0]), ast.unparse(tgt.elts[2])
+            else:
+                deg = lru_ = None
+            d = (fills[0].value if fills else apps[0].args[-1])
+            mp = {ast.unparse(k): ast.unparse(v) for k, v in zip(d.keys, d.values)}
+            fields_ok = mp == {"'lru'": lru_, "'indegree'": deg}
+            if fills:
+                idx = ast.unparse(fills[0].targets[0].slice)
+                if isinstance(lp, ast.While):
+                    backwards = any(isinstance(s_, ast.AugAssign) and isinstance(s_.op, ast.Sub) and ast.unparse(s_.target) == idx for s_ in lp.body)
+                else:
+                    it = ast.unparse(lp.iter).replace(' ', '')
+                    backwards = ast.unparse(lp.target) == idx and (it.startswith('reversed(range(') or it.endswith(',-1,-1)'))
+            else:
+                a0 = apps[0]
+                backwards = (a0.func.attr == 'insert' and ast.unparse(a0.args[0]) == '0') or any(
+                    isinstance(c, ast.Call) and isinstance(c.func, ast.Attribute) and c.func.attr == 'reverse' for c in ast.walk(u.node)) or \
+                    any(isinstance(x, ast.Subscript) and ast.unparse(x.slice).replace(' ', '') == '::-1' for x in ast.walk(u.node))
+            verdict = fields_ok and backwards
+    elif not loops:
+        # the result is built without emptying the heap in order: a heap's array is not sorted
+        verdict = False
+    if verdict is None:
+        raise AnalysisError('R-TOPK: the construction of the sorted answer of get_webentity_most_linked_pages_iter is not recognised')
+    rr.ob(ctx.where(u, loops[0] if loops else u.node), 'the heap is drained minimum-first into the result from the back (non-increasing indegree)', ok=verdict)
+    if not verdict:
+        rr.fail(ctx.finding('R-TOPK', u, loops[0] if loops else (fin[0] if fin else u.node), 'the answer is not built by popping the heap minimum-first and filling the result from the back: the '
+                            'listed order is not non-increasing in indegree (or the reported fields are not the popped lru / indegree)'))
 
 
 # ------------------------------------------------------------------------------------------------ R-RULE-INSTALL
